@@ -84,6 +84,14 @@ def forall(pred):
     raise NotImplementedError('forall() is prover-only (loop invariants and lemmas)')
 
 
+def allocated(x):
+    return True
+
+
+def inputs_unchanged(*names):
+    return True      # natively: checked by the frame comparison of the harness
+
+
 def ext(name):
     """an external (library) function by dotted name; symbolically an uninterpreted pure function"""
     import importlib
@@ -398,7 +406,7 @@ class Old:
 class Contract:
     FIELDS = ('params', 'closure', 'requires', 'ensures', 'ghost', 'raises', 'modifies', 'loops',
               'assumes', 'props', 'inline', 'native', 'result', 'tier', 'unroll', 'globals',
-              'scope', 'note', 'kind', 'decreases', 'lemmas', 'timeout', 'modular', 'must_raise', 'raises_iff', 'externals', 'callees', 'method_results', 'use')
+              'scope', 'note', 'kind', 'decreases', 'lemmas', 'timeout', 'modular', 'must_raise', 'raises_iff', 'externals', 'callees', 'method_results', 'use', 'opaque_ctors', 'hints')
 
     def __init__(self, target, cls, variant=None):
         self.target = target
@@ -432,6 +440,8 @@ class Contract:
         self.callees = {}
         self.method_results = {}
         self.use = None
+        self.opaque_ctors = {}
+        self.hints = []
         for k, v in vars(cls).items():
             if k.startswith('_'):
                 continue
